@@ -1002,12 +1002,13 @@ func FilterHandler(value string) bool {
 	if BrightnessCont.MatchString(value) {
 		return true
 	}
-	if DropShadow.MatchString(value) {
-		return true
-	}
-	colorValue := strings.TrimSuffix(string(DropShadow.ReplaceAll([]byte(value), []byte{})), ")")
-	if ColorHandler(colorValue) {
-		return true
+	if loc := DropShadow.FindStringIndex(value); loc != nil && loc[0] == 0 && strings.HasSuffix(value, ")") {
+		// the pattern covers the offsets, blur and spread; what is left is
+		// either nothing or the colour of the shadow
+		colorValue := strings.TrimSuffix(value[loc[1]:], ")")
+		if colorValue == "" || ColorHandler(colorValue) {
+			return true
+		}
 	}
 	if Grayscale.MatchString(value) {
 		return true
